@@ -96,6 +96,9 @@ pub struct StreamSc {
     /// reports `(usize::MAX, None)`, like `iter::repeat` (U+0000 is rejected in every parser state, so a
     /// correct parser still terminates)
     pub hint: u8,
+    /// re-entrancy: while answering this poll (1-based; 0 = never) the stream itself parses a small
+    /// document on the same thread — a source that decodes or validates with the same library
+    pub reenter_at: u32,
 }
 
 impl StreamSc {
@@ -162,6 +165,7 @@ impl StreamSc {
         o.push(("faults".into(), J::Arr(self.faults.iter().map(|s| J::Str(s.clone())).collect())));
         if self.entry == Entry::ParseIn { o.push(("context".into(), J::UInt(self.context as u64))); }
         if self.hint != 0 { o.push(("size_hint_mode".into(), J::UInt(self.hint as u64))); }
+        if self.reenter_at != 0 { o.push(("reenter_at_poll".into(), J::UInt(self.reenter_at as u64))); }
         J::Obj(o)
     }
 
@@ -193,12 +197,13 @@ impl StreamSc {
         let faults = j.get("faults").and_then(J::as_arr).map(|a| a.iter().filter_map(|x| x.as_str().map(String::from)).collect()).unwrap_or_default();
         let context = j.get("context").and_then(J::as_u64).unwrap_or(0) as u8;
         let hint = j.get("size_hint_mode").and_then(J::as_u64).unwrap_or(0) as u8;
-        Ok(StreamSc { entry, target, opts, src, faults, context, hint })
+        let reenter_at = j.get("reenter_at_poll").and_then(J::as_u64).unwrap_or(0) as u32;
+        Ok(StreamSc { entry, target, opts, src, faults, context, hint, reenter_at })
     }
 
     pub fn digest(&self) -> u64 {
         let mut d = Digest::default();
-        d.u8(self.entry as u8); d.u8(self.target as u8); if self.entry == Entry::ParseIn { d.u8(self.context) } d.u8(self.hint);
+        d.u8(self.entry as u8); d.u8(self.target as u8); if self.entry == Entry::ParseIn { d.u8(self.context) } d.u8(self.hint); d.u64(self.reenter_at as u64);
         if self.entry.takes_options() { d.u8(self.opts.0 as u8 | (self.opts.1 as u8) << 1); } else { d.u8(0) }
         match &self.src {
             Src::Events(evs) => for e in evs { match e { Ev::Item(c, l) => { d.u64((*c as u64) << 8 | *l as u64) } Ev::Fail(i) => d.u64(1 << 40 | *i as u64), Ev::End => d.u64(2 << 40) } },
@@ -223,11 +228,13 @@ pub struct SimStream<'a> {
     pub polls_after_exhaustion: usize,
     limit: usize,
     hint: u8,
+    reenter_at: usize,
 }
 
 impl<'a> SimStream<'a> {
-    pub fn new(evs: &'a [Ev]) -> Self { SimStream { evs, i: 0, polls: 0, polls_after_exhaustion: 0, limit: evs.len() + 10_000, hint: 0 } }
+    pub fn new(evs: &'a [Ev]) -> Self { SimStream { evs, i: 0, polls: 0, polls_after_exhaustion: 0, limit: evs.len() + 10_000, hint: 0, reenter_at: 0 } }
     pub fn with_hint(evs: &'a [Ev], hint: u8) -> Self { SimStream { hint, ..SimStream::new(evs) } }
+    pub fn reentering_at(mut self, poll: usize) -> Self { self.reenter_at = poll; self }
     fn hint(&self) -> (usize, Option<usize>) {
         match self.hint { 1 => { let n = self.evs[self.i.min(self.evs.len())..].iter().take_while(|e| matches!(e, Ev::Item(..))).count(); (n, Some(n)) } 2 => (usize::MAX, None), _ => (0, None) }
     }
@@ -235,6 +242,14 @@ impl<'a> SimStream<'a> {
     fn pull(&mut self) -> Option<Result<(char, u32), u32>> {
         self.polls += 1;
         if self.polls > self.limit { std::panic::panic_any(SpinDetected); }
+        if self.polls == self.reenter_at {
+            // the source uses the library itself while the outer parse is waiting for this character
+            use json_syntax::Parse;
+            let nested = json_syntax::Value::parse_str("[1,{\"a\":[true,null],\"b\":\"\\ud83d\\ude00\"},-0.5e1]");
+            if nested.is_err() { panic!("a nested parse inside the stream's next() failed: the parser is not re-entrant"); }
+            let bad = json_syntax::Value::parse_str("[1,}");
+            if bad.is_ok() { panic!("a nested parse inside the stream's next() accepted an invalid text: the parser is not re-entrant"); }
+        }
         match self.evs.get(self.i) {
             Some(ev) => { self.i += 1; match *ev { Ev::Item(c, l) => Some(Ok((c, l))), Ev::Fail(id) => Some(Err(id)), Ev::End => None } }
             None => { self.polls_after_exhaustion += 1; if self.hint == 2 { Some(Ok(('\u{0}', 1))) } else { None } }
